@@ -10,7 +10,7 @@
 EXTENDS FsBase
 
 AllDevs == {"C07.drop_database_engine_exception", "C07.context_guard_first_table_only", "C07.cte_name_needs_context",
-            "C07.merge_qualified_source_parse_error"}
+            "C07.merge_qualified_source_parse_error", "C07.other_database_write_aborts_transaction"}
 
 NONE == "none"
 \* causes of failure the property lists, by the statement that exhibits them; q is the qualification level of the name
@@ -20,7 +20,8 @@ TableCauses == {"sel", "join", "subq", "cte", "ins", "inssel", "upd", "del", "dr
 \* are ALTER TABLE [IF EXISTS] t ADD COLUMN <existing> / RENAME COLUMN a TO <existing> (IF EXISTS is about the TABLE only)
 OnTCauses == {"nocol", "nofunc", "nvalues", "duptable", "dupview", "dupcolumn", "dupcolumn_ie", "renamecol_dup_ie"}
 SchemaCauses == {"selnosch", "createinnosch", "dropschema", "usesc", "dupschema"}      \* q in {2, 3}
-DbCauses == {"selnodb", "createinnodb", "usedb", "dropdb", "dupdb"}                    \* always fully specified
+\* always fully specified; the *othersch causes name schema S1 - the session's own current schema name - in database D2, which has none
+DbCauses == {"selnodb", "createinnodb", "usedb", "dropdb", "dupdb", "createinothersch", "dropothersch"}
 OtherCauses == {"undefvar"}
 
 InitSt == [made |-> FALSE, ctx |-> "full", rows |-> 0, tx |-> FALSE, pend |-> 0, var |-> FALSE, open |-> FALSE, ss |-> NONE]
@@ -52,7 +53,7 @@ Steps(st, op, D) ==
          LET s2 == [st EXCEPT !.made = TRUE, !.open = TRUE, !.ctx = op.ctx] IN {R(s2, Obs("ok", s2))}
     [] op.k = "good" ->
         (CASE op.w = "ins"      -> {Good(st, IF st.tx THEN [st EXCEPT !.pend = @ + 1] ELSE [st EXCEPT !.rows = @ + 1])}
-           [] op.w \in {"sel", "describe"} -> {Good(st, st)}
+           [] op.w \in {"sel", "describe", "nopcall"} -> {Good(st, st)}     \* nopcall: a statement matched by nop_regexes (success, nothing runs)
            [] op.w = "begin"    -> {Good(st, [st EXCEPT !.tx = TRUE])}
            [] op.w = "commit"   -> {Good(st, [st EXCEPT !.tx = FALSE, !.rows = @ + st.pend, !.pend = 0])}
            [] op.w = "rollback" -> {Good(st, [st EXCEPT !.tx = FALSE, !.pend = 0])}
@@ -67,6 +68,13 @@ Steps(st, op, D) ==
          {FailOn(st, res, op.cur)} \cup alt
          \cup (IF "C07.drop_database_engine_exception" \in D /\ op.cause = "dropdb"
                THEN LET s2 == IF op.cur = "main" THEN [st EXCEPT !.ss = NONE] ELSE st IN {R(s2, Obs("exc:ParserException", s2))}
+               ELSE {})
+         \* as built (the engine's rule: one transaction writes to one attached database) a failing DDL that names ANOTHER database
+         \* inside a transaction that has written already raises the engine's InvalidInputException and aborts the transaction;
+         \* the aftermath is not modelled (the judge stops)
+         \cup (IF "C07.other_database_write_aborts_transaction" \in D /\ op.cause \in {"dropothersch", "createinothersch"} /\ st.tx /\ st.pend > 0
+               THEN {RT(s2, [Obs("exc:InvalidInputException", s2) EXCEPT !.mine = -9, !.var = v]) :
+                        s2 \in {IF op.cur = "main" THEN [st EXCEPT !.ss = NONE] ELSE st}, v \in {"unset", "?exc:InvalidInputException"}}
                ELSE {})
          \* as built a MERGE whose source is schema- or database-qualified dies in SQL generation (see C12) before any lookup
          \cup (IF "C07.merge_qualified_source_parse_error" \in D /\ op.cause = "merge" /\ op.q >= 2
@@ -91,7 +99,7 @@ Ops(st) ==
   ELSE IF ~st.open THEN [k : {"after"}, w : {"execute", "cursor_execute", "commit", "rollback", "execute_string"}]
   ELSE (IF st.ctx = "full" /\ st.rows + st.pend < 2 THEN [k : {"good"}, w : {"ins"}] ELSE {})
        \cup (IF st.ctx = "full" THEN [k : {"good"}, w : {"sel", "describe"}] ELSE {})
-       \cup [k : {"good"}, w : (IF st.tx THEN {"commit", "rollback"} ELSE {"begin"}) \cup {"setvar", "unsetvar"}]
+       \cup [k : {"good"}, w : (IF st.tx THEN {"commit", "rollback"} ELSE {"begin"}) \cup {"setvar", "unsetvar", "nopcall"}]
        \cup [k : {"bad"}, cause : TableCauses \cup OnTCauses, q : 1..3, cur : {"main", "fresh"}]
        \* the same failures through cursor.describe(query), which must report them like execute does
        \cup [k : {"bad"}, cause : {"sel", "join", "subq", "nocol", "nofunc"}, q : 1..3, cur : {"main_describe"}]
